@@ -501,7 +501,7 @@ class CIMDateTime(_CIMComparisonMixin, CIMType):
                         _format("Invalid format of CIM datetime value: {0!A}",
                                 dtarg))
         elif isinstance(dtarg, datetime):
-            if dtarg.tzinfo is None:
+            if dtarg.utcoffset() is None:
                 self.__datetime = dtarg.replace(tzinfo=MinutesFromUTC(0))
             else:
                 self.__datetime = copy.copy(dtarg)
